@@ -518,12 +518,13 @@ fn toml_eq(a: &Option<toml::Value>, b: &Option<toml::Value>) -> bool {
 }
 
 fn package_cases(out: &mut Out) {
-    let uris = [".", "docker://docker.io/x/y:1", "https://e.com/a%20b?q=1#f", "../rel/path", "/abs/p", "urn:cnb:registry:x/y@1", "libcnb:x/y"];
+    // the last three are scheme-less references that carry more than a path (fragment, query, authority)
+    let uris = [".", "docker://docker.io/x/y:1", "https://e.com/a%20b?q=1#f", "../rel/path", "/abs/p", "urn:cnb:registry:x/y@1", "libcnb:x/y", "../buildpacks/c#-buildpack", "example.tgz?version=1.2.3", "//fileserver.example.com/share/ruby.cnb"];
     for bp in [".", "docker://r/meta"] {
         for os in [None, Some(PlatformOs::Linux), Some(PlatformOs::Windows)] {
             for n in 0..=2usize {
                 for first in 0..uris.len() {
-                    let deps: Vec<&str> = (0..n).map(|i| uris[(first + i * 3) % uris.len()]).collect();
+                    let deps: Vec<&str> = (0..n).map(|i| uris[(first + i * 4) % uris.len()]).collect();
                     let pd = PackageDescriptor {
                         buildpack: PackageDescriptorBuildpackReference::try_from(bp).unwrap(),
                         dependencies: deps.iter().map(|d| PackageDescriptorDependency::try_from(*d).unwrap()).collect(),
